@@ -48,6 +48,21 @@ func VerifC19_AcrossBlocks() {
 			verifFail("BeginBlock failed")
 		}
 	}
+	if verifChoice("restartFromGenesis", 2) == 1 {
+		// the chain is exported and restarted from that genesis between the two creations
+		g := ExportGenesis(ctx, k)
+		e2 := newVEnv(types.StoreKey, ctx.BlockHeight())
+		k = keeper.NewKeeper(e2.cdc, e2.key)
+		InitGenesis(e2.ctx, k, *g)
+		srv = keeper.NewMsgServerImpl(k)
+		ctx = e2.ctx
+		// ids of imported records follow the import order (listed finding C12-record-ids); here one record
+		it := k.RecordsIterator(ctx)
+		verifAssume(it.Valid())
+		id1 = append([]byte{}, it.Key()[len(types.RecordKey):]...)
+		it.Close()
+		got1, _ = k.GetRecord(ctx, id1)
+	}
 	r2, err2 := srv.CreateRecord(ctx.WithTxBytes(tx), &types.MsgCreateRecord{Contents: second, Creator: creator.String()})
 	verifAssert(err2 == nil, "second creation succeeds")
 	id2, _ := hex.DecodeString(r2.Id)
